@@ -9,7 +9,8 @@
                                                                        zone zx ⊂ sat, zone g global
 
   Peers 0 = A, 1 = B, 2 = C, 3 = D (B's sibling), 4 = E, 5 = F (the parent zone).  Security objects: 0 master, 1 sat,
-  2 agent, 3 zx, 4 g.
+  2 agent, 3 zx, 4 g (the zones themselves), and 5..9: objects of ANOTHER type that carry the same five names but live in
+  a different zone (`secZone`): 5 "master" in zone agent, 6 "sat" and 7 "agent" in zone master, 8 "zx" and 9 "g" in zone sat.
 -/
 import IcingaModel.C12.Model
 
@@ -98,10 +99,15 @@ def allPeers : List Nat := [0, 1, 2, 3, 4, 5]
 /-- Endpoints in the same, the parent or an immediate child zone (all but C in the grandchild zone). -/
 def related (p : Nat) : Bool := p < 6 && p != 2
 
+/-- The zone a security object belongs to: a zone is its own, the objects 5..9 of the other type live elsewhere than
+    the zone whose name they carry. -/
+def secZone : Nat → Nat
+  | 5 => 2 | 6 => 0 | 7 => 0 | 8 => 1 | 9 => 1 | o => o
+
 /-- The zones an event about `sec` is relayed to — its zone and all parent zones; for a global zone the local
     zone and its immediate children — each with (is it the local zone, its endpoints other than the local node). -/
 def targetZones (sec : Option Nat) : List (Bool × List Nat) :=
-  match sec with
+  match sec.map secZone with
   | none => [(true, [0]), (false, [4, 5])]
   | some 0 => [(true, [0]), (false, [4, 5])]
   | some 4 => [(true, [0]), (false, [1, 3])]
@@ -118,10 +124,11 @@ def may (dropped : Bool) (p : Nat) (sec : Option Nat) : Bool :=
   match sec with
   | none => true
   | some o =>
+    let z := secZone o
     if o == 3 && dropped then false
-    else if p == 0 || p == 4 || p == 5 then o ≤ 4            -- zones master and top: everything below them
-    else if p == 1 || p == 3 then o == 1 || o == 2 || o == 3 || o == 4
-    else o == 2 || o == 4
+    else if p == 0 || p == 4 || p == 5 then z ≤ 4            -- zones master and top: everything below them
+    else if p == 1 || p == 3 then z == 1 || z == 2 || z == 3 || z == 4
+    else z == 2 || z == 4
 
 def lpos (pos : List Int) (p : Nat) : Int := pos.getD (2 * p) 0
 def rpos (pos : List Int) (p : Nat) : Int := pos.getD (2 * p + 1) 0
@@ -297,6 +304,52 @@ def advanceOk (sp : SpecSt) (st : Step) : Bool :=
 def advanceTrace : SpecSt → List Step → Nat → Option Nat
   | _, [], _ => none
   | sp, st :: r, i => if advanceOk sp st then advanceTrace (specStep sp st).2 r (i + 1) else some i
+
+/-! ## "before it is considered in sync"
+
+  After a reconnect the logged events are replayed BEFORE the endpoint is treated as in sync: nothing may be queued for it
+  live on the new connection before the replay of that connection (SyncClient: config sync + ReplayLog) has finished — a
+  live event in front of the replay carries a newer `ts`, the receiver records it as its position and then ignores every
+  replayed (older) message.  And the synchronisation must end: when SyncClient returns, the endpoint's `syncing` flag is
+  clear again (also when ReplayLog failed), otherwise nothing is ever sent to it live again while nothing is logged for it.
+  Evaluated on its own, over its own view of the trace. -/
+
+inductive SyncEv
+  | attach (p : Nat)                  -- Endpoint::AddClient: the endpoint counts as connected from now on
+  | detach (p : Nat)
+  | live (ps : List Nat)              -- an event was queued live for these endpoints (SyncSendMessage)
+  | synced (p : Nat) (flag : Bool)    -- SyncClient returned for p's connection; flag = its `syncing` attribute afterwards
+  | restart
+  deriving DecidableEq, Repr
+
+structure SyncSt where
+  attached : Nat → Bool := fun _ => false
+  replayed : Nat → Bool := fun _ => false     -- the replay for the CURRENT connection is complete
+
+inductive SyncBad
+  | liveBeforeSync
+  | syncStuck
+  deriving DecidableEq, Repr
+
+def SyncBad.name : SyncBad → String
+  | .liveBeforeSync => "no_live_before_sync" | .syncStuck => "sync_completes"
+
+def syncStep (s : SyncSt) : SyncEv → Option SyncBad × SyncSt
+  | .attach p =>
+    (none, if s.attached p then s
+           else { attached := fun q => if q = p then true else s.attached q, replayed := fun q => if q = p then false else s.replayed q })
+  | .detach p => (none, { attached := fun q => if q = p then false else s.attached q, replayed := fun q => if q = p then false else s.replayed q })
+  | .live ps => (if ps.any (fun p => s.attached p && !s.replayed p) then some .liveBeforeSync else none, s)
+  | .synced p flag =>
+    (if flag then some .syncStuck else none, { s with replayed := fun q => if q = p then s.attached p else s.replayed q })
+  | .restart => (none, {})
+
+def syncTrace : SyncSt → List SyncEv → Nat → Option (Nat × SyncBad)
+  | _, [], _ => none
+  | s, e :: r, i =>
+    match syncStep s e with
+    | (some b, _) => some (i, b)
+    | (none, s') => syncTrace s' r (i + 1)
 
 /-- The whole trace: the first violated clause with the index of the step. -/
 def specTrace : SpecSt → List Step → Nat → Option (Nat × Clause)
